@@ -27,6 +27,11 @@ func sliceArrayOperator(d *dataTreeNavigator, context Context, expressionNode *E
 	for el := context.MatchingNodes.Front(); el != nil; el = el.Next() {
 		lhsNode := el.Value.(*CandidateNode)
 
+		if lhsNode.Kind == MappingNode {
+			// the Content of a map alternates keys and values: a slice of it is not a sequence of anything
+			return Context{}, fmt.Errorf("cannot slice a map (%v), only arrays can be sliced", lhsNode.Tag)
+		}
+
 		firstNumber, err := getSliceNumber(d, context, lhsNode, expressionNode.LHS)
 
 		if err != nil {
